@@ -1,11 +1,12 @@
 \* exhaustive: every well-formed fix of <= 3 edits over every file of <= 3 lines x <= 4 columns
-\* (3-edit fixes: size <= MaxSize3), all application orders
+\* (2-edit fixes: size <= MaxSize2, 3-edit fixes: size <= MaxSize3), all application orders
 SPECIFICATION Spec
 CONSTANTS
   NaiveRank = FALSE
   MaxLines = 3
   MaxCols = 4
   MaxEdits = 3
+  MaxSize2 = 8
   MaxSize3 = 4
   Texts3 = 2
 INVARIANTS InitWellFormed PartialCanonical OrderIndependent PendingApplicable Frame
